@@ -600,3 +600,23 @@ def replay_main(args):
         return 1
     print(f"NOT-REPRODUCED (exact schedule and {args.tries} re-searched schedules of the recorded workload)")
     return 0
+
+
+def one_main(args):
+    """Debug helper: one run by index, optional full event trace dump."""
+    B.ensure_warm()
+    B.boot_basilisp()
+    check = load_check(args.check)
+    check.lane_setup()
+    faulthandler.dump_traceback_later(120, exit=True)
+    rs, workload, knobs, sched_seed = generate(check, args.seed, args.tier, args.index)
+    rec, k = execute(check, workload, knobs, sched_seed, trace=bool(args.dump))
+    print(json.dumps({"status": rec["status"], "signature": rec["signature"], "digest": rec["digest"],
+                      "steps": rec["steps"], "switches": rec["switches"], "knobs": knobs}, default=str))
+    print("workload:", json.dumps(workload)[:3000])
+    print("detail:", str(rec["detail"])[:3000])
+    if args.dump:
+        with open(args.dump, "w") as f:
+            for e in k.trace:
+                f.write(repr(e) + "\n")
+    return 0
